@@ -152,9 +152,18 @@ def norm_results(res, root_in):
     return out
 
 
+_SEL = None     # the frame selection of the case being explored; set in the shard process, inherited by its forked children
+
+
 def _opts(channels):
     from TotalDepth.common import Slice
-    return ('first', Slice.Slice(), set(channels), 16, '.3f')
+    if _SEL is None:
+        sl = Slice.Slice()
+    elif _SEL[0] == 'sample':
+        sl = Slice.Sample(_SEL[1])
+    else:
+        sl = Slice.Slice(*_SEL[1:])
+    return ('first', sl, set(channels), 16, '.3f')
 
 
 def child_sequential(tool, dir_in, dir_out, channels):
@@ -216,7 +225,9 @@ def task_order(dir_in):
 # ------------------------------------------------------------------------------------------------
 def explore_directory(case, res, workdir, tier):
     """case: {'tool', 'files': [[relative name, code], ...], 'channels': [...], 'real_pool': bool}"""
+    global _SEL
     tool, files, channels = case['tool'], case['files'], case['channels']
+    _SEL = case.get('sel')
     shutil.rmtree(workdir, ignore_errors=True)
     dir_in = os.path.join(workdir, 'in')
     for name, code in files:
@@ -378,6 +389,13 @@ def gen_cases(tier):
         # a foreign text file cut inside its first line / after it
         for cut in ('LAS:bytes2', 'LAS:bytes12', 'LAS:bytes30', 'DAT:bytes5'):
             yield {'tool': tool, 'files': [['a' + EXT[g0], g0], ['b.las', cut], ['c' + EXT[g1], g1]], 'channels': []}
+        # one frame selection object for the whole batch (--frame-slice): files of different frame counts, both orders
+        for sel in (['sample', 3], ['sample', 2], ['slice', 1, None, 2], ['slice', None, None, -1]):
+            if sel[-1] == -1 and tool == 'lis':
+                continue     # LIS conversion with a negative step is outside the statement's common ground (see C11)
+            for names in (('a', 'b'), ('b', 'a')):
+                yield {'tool': tool, 'files': [[names[0] + EXT[g0], g0], [names[1] + EXT[g1], g1]], 'channels': [], 'sel': sel}
+            yield {'tool': tool, 'files': [['a' + EXT[g1], g1], ['b' + EXT[g0], g0], ['c' + EXT[gb], gb]], 'channels': ['GR'] if tool != 'bit' else [], 'sel': sel}
         # output name collisions
         yield {'tool': tool, 'files': [['a' + EXT[g0], g0], ['a' + EXT[g0].upper(), gb]], 'channels': []}
         # a long batch handled by one process (sequential run, one worker, two workers)
